@@ -42,8 +42,10 @@ import (
 
 type backend struct{ d *hx.Driver }
 
-func (b backend) Add(e []byte) (*balloon.Snapshot, error)         { return nil, errors.New("read-only") }
-func (b backend) AddBulk(x [][]byte) ([]*balloon.Snapshot, error) { return nil, errors.New("read-only") }
+func (b backend) Add(e []byte) (*balloon.Snapshot, error) { return nil, errors.New("read-only") }
+func (b backend) AddBulk(x [][]byte) ([]*balloon.Snapshot, error) {
+	return nil, errors.New("read-only")
+}
 func (b backend) QueryDigestMembershipConsistency(k hashing.Digest, v uint64) (*balloon.MembershipProof, error) {
 	return b.d.B.QueryDigestMembershipConsistency(k, v)
 }
@@ -669,9 +671,9 @@ func TestC19(t *testing.T) {
 // ---------------------------------------------------------------- publisher
 
 type pcase struct {
-	Names     []string `json:"events"`
-	Batches   [][2]int `json:"batches"`
-	Deliver   []int    `json:"deliveryOrder"`
+	Names   []string `json:"events"`
+	Batches [][2]int `json:"batches"`
+	Deliver []int    `json:"deliveryOrder"`
 }
 
 func publisher(r *ev.Run, w *world, names []string, comp []int) {
